@@ -14,7 +14,7 @@
     guards : 3 = C20-F3 shape, 4 = C20-F4 shape *)
 From HV Require Export Base.Prelude C20.Model C20.Spec.
 
-Inductive outcome := OPanic | OTree (t : list (key * cfg)).
+Inductive outcome := OPanic | OErr | OTree (t : list (key * cfg)).
 
 Record case := {
   c_pfx : string;
@@ -70,7 +70,7 @@ Definition observe (d : list (key * cfg)) (r : res (list (key * cfg))) : outcome
 
 Definition outcome_eqb (a b : outcome) : bool :=
   match a, b with
-  | OPanic, OPanic => true
+  | OPanic, OPanic | OErr, OErr => true
   | OTree x, OTree y => cfg_equivb (Map x) (Map y)
   | _, _ => false
   end.
@@ -88,9 +88,10 @@ Fixpoint perms {A} (l : list A) : list (list A) :=
   end.
 
 Definition model_outcomes (fix3 fix4 : bool) (c : case) (all_orders : bool) : list outcome :=
-  let run := fun env => observe (c_d c) (load (oracle c) fix3 fix4 (c_pfx c) (c_d c) (c_f c) env) in
-  if all_orders && (length (c_env c) <=? 5) then map run (perms (c_env c))
-  else [run (c_env c); run (rev (c_env c))].
+  let run := fun flip env => observe (c_d c) (load (oracle c) fix3 fix4 flip (c_pfx c) (c_d c) (c_f c) env) in
+  if all_orders && (length (c_env c) <=? 5)
+  then map (run false) (perms (c_env c)) ++ map (run true) (perms (c_env c))
+  else [run false (c_env c); run true (rev (c_env c))].
 
 Definition subset_outcomes (obs model : list outcome) : bool :=
   forallb (fun o => existsb (outcome_eqb o) model) obs.
